@@ -25,6 +25,17 @@ ObserveReason(e) ==
   ELSE IF o.head_time # (IF Dirty(e.wt) THEN "now" ELSE "commit") THEN "head-time"
   ELSE "ok"
 
+\* C03 on real histories: in commit post-mode one more commit on the same branch after the same
+\* base tag gives a strictly greater flow version (SemVer and PEP 440), judged on the observed strings
+\* (a pre-release base tag is excluded for the first commit: the label switches to the branch's)
+FlowPairReason(e) ==
+  LET fin == SVG!IsSemVer(e.tag) /\ SVG!Parse(e.tag).pre = <<>> IN
+  IF ~SVG!IsSemVer(e.sv0) \/ ~SVG!IsSemVer(e.sv1) \/ ~PPG!GreedyAccepts(e.pep0) \/ ~PPG!GreedyAccepts(e.pep1) THEN "flow-output-not-wellformed"
+  ELSE IF ~fin THEN "ok"
+  ELSE IF SVG!SvCmp(SVG!Parse(e.sv0), SVG!Parse(e.sv1)) >= 0 THEN "flow-semver-not-increasing-along-history"
+  ELSE IF PPG!PepCmp(PPG!Greedy(e.pep0), PPG!Greedy(e.pep1)) >= 0 THEN "flow-pep440-not-increasing-along-history"
+  ELSE "ok"
+
 Apply(e) ==
   CASE e.op = "commit"   -> Commit
     [] e.op = "branch"   -> Branch(e.arg)
@@ -42,6 +53,9 @@ TNext ==
      CASE e.k = "reset"   -> /\ parents' = << <<>> >> /\ branches' = [b \in {"main"} |-> 1]
                              /\ head' = [b |-> "main"] /\ tags' = {} /\ Last
        [] e.k = "op"      -> Apply(e) /\ Last
+       [] e.k = "flowpair" -> /\ LET why == FlowPairReason(e) IN
+                                 IF why = "ok" THEN TRUE ELSE PrintT("MISMATCH " \o ToString(l) \o " " \o why)
+                              /\ UNCHANGED gvars /\ Last
        [] e.k = "observe" -> /\ LET why == ObserveReason(e) IN
                                 IF why = "ok" THEN TRUE ELSE PrintT("MISMATCH " \o ToString(l) \o " " \o why)
                              /\ UNCHANGED gvars /\ Last
